@@ -208,6 +208,9 @@ mod parse_result;
 mod peg_parser;
 mod state;
 mod trace;
+#[cfg(peginator_verif)]
+#[doc(hidden)]
+pub mod verif;
 
 #[doc(hidden)]
 pub use builtin_parsers::{
